@@ -1615,3 +1615,17 @@ Proof.
   assert (existsb (eqb c) (map config_of (exclusion_trials b s)) = true); [|congruence].
   apply existsb_exists. exists (config_of t). split; [apply in_map; exact Hin | rewrite Heq; apply Hrefl].
 Qed.
+
+(* a concrete down-sampling choice satisfying [choose_ok]: keep the first n observations *)
+Lemma In_firstn {A} (x : A) l : forall n, In x (firstn n l) -> In x l.
+Proof.
+  induction l as [|a l IH]; intros [|n]; cbn; try tauto.
+  intros [E|H]; [left; exact E | right; eapply IH; eauto].
+Qed.
+Lemma firstn_choose_ok : choose_ok (fun l n => firstn n l).
+Proof.
+  intros l n Hn. split; [intros x Hx; eapply In_firstn; eauto|]. split; [rewrite firstn_length; lia|].
+  intro Hnd. rewrite <- firstn_map. clear Hn. revert n. induction (map fst l) as [|a m IH]; intros [|n]; cbn; try constructor.
+  - inversion Hnd; subst. intro Hin. apply In_firstn in Hin. tauto.
+  - inversion Hnd; subst. apply IH. assumption.
+Qed.
